@@ -365,7 +365,7 @@ def main():
         run.run_shards("rv.props.c06", timeout=3400)
         return run.finish(require=("topologies", "deliveries_checked", "replies_checked", "forwarded_copies_checked", "ring_packets"))
     rng = run.rng("c06")
-    n = (2400 if thorough else 150) // (run.shard[1] if thorough else 1) + 1
+    n = (9600 if thorough else 150) // (run.shard[1] if thorough else 1) + 1
     for i in range(n):
         nnets = rng.choice([2, 2, 3, 3, 4, 5, 6, 8])
         run_topology(run, rng, nnets, announce=rng.random() < 0.5)
